@@ -91,10 +91,14 @@ def run(chk):
     # R19.2: the merged dict is a new object
     from ..terms import is_call, call_arg
     from .c11 import _merge_parts
-    mk = ix.get_method("LogicalFile", "_make_multi_frame_data")
-    ms = chk.summary(mk)
-    ctor = ms.all_calls("DictDataWrapper")
-    ok = bool(ctor) and all(call_arg(c, 0) is not None and len(_merge_parts(call_arg(c, 0))) >= 2 for c in ctor)
+    from ._layout import frame_data_plan
+    plan = frame_data_plan(chk)
+    mk = plan.func
+    ddw = ix.get_class("DictDataWrapper")
+    ctor = [(c, callee, b) for _, c, callee, b in plan.alts if callee is not None and callee.name == "__init__"
+            and callee.cls is not None and (callee.cls is ddw or ddw in callee.cls.mro())]
+    ok = bool(ctor) and all(b.get(callee.param_names[1]) is not None and
+                            len(_merge_parts(b[callee.param_names[1]])) >= 2 for c, callee, b in ctor)
     chk.require(ok, "R19.2", "merged-dict-is-new",
                 "the dict handed to the wrapper can be the caller's own dict object (later stores into it would change "
                 "the caller's dict)", mk.where)
